@@ -62,7 +62,7 @@ def sc_evict_stalled(rng, cid, store):
     return dict(id=cid, conf=conf, steps=steps, scenario="evict-stalled-upload")
 
 
-def sc_children(rng, cid, store):
+def sc_children(rng, cid, store, deletes=True):
     """children of an index live in the in-memory child list: one client pulls them by digest while others tag and untag a
     child, delete one and push the index again"""
     conf = mkconf(store=store, withsubj=False)
@@ -85,7 +85,7 @@ def sc_children(rng, cid, store):
         r = rng.random()
         if r < 0.4:
             writer += [manifest_put(repo, "one", k, ctype=MT_OCI_M), manifest_delete(repo, "one")]
-        elif r < 0.6:
+        elif r < 0.6 and deletes:
             writer += [manifest_delete(repo, dg("sha256", k)), manifest_put(repo, dg("sha256", k), k, ctype=MT_OCI_M)]
         else:
             writer.append(manifest_put(repo, "multi", idx, ctype=MT_OCI_I))
@@ -94,7 +94,7 @@ def sc_children(rng, cid, store):
     steps += [tag_list(repo), special("close")]
     for st in steps:
         st["model"] = "(skip)"
-    return dict(id=cid, conf=conf, steps=steps, scenario="children-by-digest")
+    return dict(id=cid, conf=conf, steps=steps, scenario="children-by-digest", threads=threads)
 
 
 def run(ctx):
